@@ -309,6 +309,21 @@ def run_matrix(case, ctx):
             'maxvol_rect dr_min > dr_max')
         expect_reject(ctx, lambda: teneva.maxvol_rect(A, e2, -1, 2),
             'maxvol_rect dr_min < 0')
+        # the same inconsistent requests with numpy integer scalars of every
+        # kind (differences of unsigned scalars wrap around)
+        ut = [np.uint8, np.uint16, np.uint32, np.uint64, np.int8, np.int32,
+            np.int64, np.uintp][int(rng.integers(8))]
+        lo, hi = int(rng.integers(0, 3)), int(rng.integers(3, 8))
+        expect_reject(ctx, lambda: teneva.maxvol_rect(A, e2, ut(hi), ut(lo)),
+            f'maxvol_rect dr_min={hi} > dr_max={lo} as {ut.__name__}')
+        expect_reject(ctx, lambda: teneva.maxvol_rect(A, e2, ut(hi), lo),
+            f'maxvol_rect dr_min={ut.__name__}({hi}) > dr_max={lo}')
+        expect_reject(ctx, lambda: teneva.maxvol_rect(A, e2, hi, ut(lo)),
+            f'maxvol_rect dr_min={hi} > dr_max={ut.__name__}({lo})')
+        if n - r + 1 <= 120:
+            expect_reject(ctx, lambda: teneva.maxvol_rect(A, e2,
+                ut(n - r + 1)), f'maxvol_rect dr_min={ut.__name__}({n - r + 1})'
+                f' > n - r, dr_max=None')
     ctx.sample({'case': case, 'shape': [n, r], 'cond': cond, 'e': e, 'k': k,
         'I': I, 'max_abs_B': float(np.abs(B).max()), 'dr': [dr_min, dr_max],
         'rect_rows': len(I2),
